@@ -265,7 +265,7 @@ def main(tier, seed):
     lib.build_coq()
     lib.build_driver()
     lib.build_harness()
-    n = lib.ncases(150 if tier == "quick" else 15000)
+    n = lib.ncases(220 if tier == "quick" else 15000)
     rng = random.Random(seed)
     d = lib.casedir(PID)
     gen = [instgen.gen_instance(rng, {"slots": rng.choice(["some", "some", "none"]),
